@@ -125,6 +125,30 @@ def atom_s(a):
     return str(a)
 
 
+def mk_min(x, y):
+    """Canonical polynomial for min(x, y): arguments are shifted so that no monomial is negative and share no
+    common part, so min(i + n, b) and i + min(n, b - i) normalise to the same form."""
+    x, y = as_poly(x), as_poly(y)
+    shift = {}
+    for m in set(x.t) | set(y.t):
+        need = max(0, -x.t.get(m, 0), -y.t.get(m, 0))
+        if need:
+            shift[m] = need
+    s = Poly(shift)
+    x2, y2 = x + s, y + s
+    common = {}
+    for m in set(x2.t) & set(y2.t):
+        c = min(x2.t[m], y2.t[m])
+        if c > 0:
+            common[m] = c
+    c = Poly(common)
+    x3, y3 = x2 - c, y2 - c
+    if not x3.t or not y3.t:
+        return c - s  # min(0, nonneg) = 0
+    a, b = sorted([x3, y3], key=lambda q: repr(q.key()))
+    return Poly.atom(("min", a, b)) + c - s
+
+
 def as_poly(x):
     if isinstance(x, Poly):
         return x
@@ -298,7 +322,22 @@ def _prove(goal, facts, budget=1500):
                 if isinstance(x, Poly):
                     more |= x.atoms()
     atoms |= more
+    base_facts = facts
     facts = facts + axioms_for(atoms) + and1_identities(atoms)
+    # lower bounds of min atoms: min(x, y) >= z whenever x >= z and y >= z (z ranges over the positive monomials of x, y)
+    for a in atoms:
+        if isinstance(a, tuple) and a and a[0] == "min":
+            x, y = a[1], a[2]
+            cands = []
+            for q in (x, y):
+                for m, v in q.t.items():
+                    if v > 0 and m:
+                        z = Poly({m: 1})
+                        if z not in cands:
+                            cands.append(z)
+            for z in cands:
+                if prove_ge0(x - z, base_facts, 2, None, _Budget(80)) and prove_ge0(y - z, base_facts, 2, None, _Budget(80)):
+                    facts.append((">=", Poly.atom(a) - z))
     if rel == ">=":
         return prove_ge0(p, facts, _budget=_Budget(budget))
     if rel == "==":
